@@ -30,6 +30,22 @@ package arch
 //@     return ufStr("tarHead", files.AsRelativePath(c.Destination), int64(c.FileInfo.Mode), c.FileInfo.Size, byte('0'), "", c.FileInfo.Owner, c.FileInfo.Group, c.FileInfo.MTime) + fsContent(c.Source)
 //@ }
 //
+//@ spec func mtreeAgrees(e MtreeEntry, c *files.Content) bool {
+//@     if e.Destination != c.Destination || e.Time != c.FileInfo.MTime.Unix() { return false }
+//@     switch c.Type {
+//@     case "dir", "implicit dir":
+//@         return e.Type == "dir" && e.Mode == int64(c.FileInfo.Mode&0o7777)
+//@     case "symlink":
+//@         return e.Type == "symlink" && e.Mode == 0o777 && e.LinkSource == c.Source
+//@     }
+//@     m := md5.Sum([]byte(fsContent(c.Source)))
+//@     h := sha256.Sum256([]byte(fsContent(c.Source)))
+//@     return e.Type == c.Type && e.Mode == int64(c.FileInfo.Mode) && e.Size == c.FileInfo.Size && string(e.MD5) == string(m[:]) && string(e.SHA256) == string(h[:])
+//@ }
+//
+//@ import "crypto/md5"
+//@ import "crypto/sha256"
+//
 //@ spec func archPayload(cs files.Contents, n int) string {
 //@     return foldStr(n, func(i int) string { return archItem(cs[i]) })
 //@ }
@@ -69,6 +85,8 @@ package arch
 //@     invariant [C01] later-entries-untouched: inlined() || forall(iter, len(info.Contents), func(j int) bool { return info.Contents[j].Destination == old(info.Contents[j].Destination) })
 //@     invariant [C01] between-entries: inlined() || (ghostInt(tw, "tarRemaining") == 0 && !ghostBool(tw, "tarClosed") && ghostAny(tw, "werr") == nil)
 //@     invariant [C01] index-in-range: 0 <= iter && iter <= len(info.Contents)
+//@     invariant [C03] one-mtree-entry-per-plan-entry: inlined() || len(entries) == iter
+//@     invariant [C03] latest-mtree-entry-describes-the-shipped-entry: inlined() || iter == 0 || mtreeAgrees(entries[iter-1], info.Contents[iter-1])
 //@     invariant [C01] plan-entries-complete: inlined() || files.SpecPlanInputOK(info.Contents, true)
 //@     invariant [C11 C12] accumulator-fresh: entries == nil || fresh(entries)
 //@     invariant [C06] no-failure-so-far: !ghostFlag("failed")
